@@ -109,6 +109,125 @@ def mon_twin(steps, meta):
 wk.MONITORS["twin"] = mon_twin
 
 
+def gen_vanish_case(rng):
+    """the whole project directory goes away (deleted or moved) while its snapshot is pending; later the project is put
+    back by something klunok does not version (a copy, a clone) and one of its files is versioned again: files that
+    were deleted and have not been versioned since stay out of the new snapshot"""
+    s = wc.Script()
+    W = wc.WATCH
+    wc.setup_world(s, wc.base_cfg(deb=rng.choice([0, 1])))
+    s.start()
+    s.exec(3, wc.X + "/vim")
+    if rng.random() < 0.4:
+        s.add("ftsrev 1")
+    root, name = rng.choice([(W + "/proj", "proj"), (W + "/pp/p1", "p1")])
+    pool = ["README", "src/m.c", "src/deep/x/y.h", "sub/g.c", "f.c"]
+    members = rng.sample(pool, rng.randint(2, 4))
+    n = 0
+    for m in members:
+        n += 1
+        s.put(root + "/" + m, "v%d" % n)
+        s.write(3, root + "/" + m)
+    s.tick(2)
+    s.dump()
+    s.timeout()
+    s.dump()
+    # one more save, then the project disappears with its snapshot still owed
+    again = rng.choice(members)
+    n += 1
+    s.put(root + "/" + again, "v%d" % n)
+    s.write(3, root + "/" + again)
+    if rng.random() < 0.5:
+        s.tick(2)
+        s.dump()
+        s.timeout()      # the file is stored, ...
+        s.dump()
+        n += 1
+        s.put(root + "/" + again, "v%d" % n)
+        s.write(3, root + "/" + again)
+    dirs = set()
+    for m in members:
+        s.rm(root + "/" + m)
+        d = m.rsplit("/", 1)[0] if "/" in m else ""
+        while d:
+            dirs.add(d)
+            d = d.rsplit("/", 1)[0] if "/" in d else ""
+    for d in sorted(dirs, key=lambda x: -x.count("/")):
+        s.add("rmdir %s" % wc.hexs(root + "/" + d))
+    s.add("rmdir %s" % wc.hexs(root))
+    s.tick(2)
+    s.dump()
+    s.timeout()
+    s.dump()
+    if rng.random() < 0.3:
+        s.restart()
+        s.exec(3, wc.X + "/vim")
+    # the project comes back: every old member is put in place (not versioned), one file is saved with an editor
+    for m in members:
+        s.put(root + "/" + m, "restored " + m)
+    saved = rng.choice(members + ["new.c"])
+    s.put(root + "/" + saved, "saved after the return")
+    s.write(3, root + "/" + saved)
+    s.tick(2)
+    s.dump()
+    s.timeout()
+    s.dump()
+    return s.text(), {}
+
+
+def mon_deleted_absent(steps, meta):
+    """files deleted from the project are absent from later snapshots: a member that did not exist when the project's
+    pending entry was taken off the queue by an untroubled pass, and of which no version has been stored since, is in
+    no later snapshot"""
+    prev = None
+    between = []
+    dropped = {}     # (project, member) -> versions it had when it was found deleted
+    for st in steps:
+        if st.op in wk.HANDLER_OPS:
+            between.append(st)
+        if st.dump is None:
+            continue
+        cur = st.dump
+        if prev is not None and st.tag_same_env:
+            for sdir in [p for p, e in cur.items() if e[0] == "dir" and p not in prev and wk.re.match(r"^/k/projects/[^/]+/[^/]+$", p)]:
+                name = sdir.split("/")[3]
+                root = wk.PROJECTS.get(name)
+                if root is None:
+                    continue
+                for p, e in cur.items():
+                    if p.startswith(sdir + "/") and e[0] == "file":
+                        m = p[len(sdir) + 1:]
+                        vdir = "/k/store/%s/" % (root + "/" + m)[len("/w/"):]
+                        vers = sorted(q for q in cur if q.startswith(vdir))
+                        if dropped.get((name, m)) == vers:
+                            return ("snapshot %s contains %s, which had been deleted from the project when the project's earlier pending snapshot was handled and "
+                                    "of which no version has been stored since (its versions are still %s): a deleted file came back into a later snapshot"
+                                    % (sdir, m, [v.rsplit("/", 1)[1] for v in vers]))
+            if len(between) == 1 and between[0].op == "timeout" and (between[0].result or "").startswith("pause"):
+                left = {x[1] for x in wk.queue_of(cur)}
+                qp = wk.queue_of(prev)
+                for qi, (_, num, path, mm, mt) in enumerate(qp):
+                    if not (mm & 1) or num in left or any(x[2] == path for x in qp[qi + 1:]):
+                        continue
+                    name = path.rstrip("/").rsplit("/", 1)[1]
+                    root = wk.PROJECTS.get(name)
+                    if root is None:
+                        continue
+                    pre = "/k/var/projects/%s/" % name
+                    for p, e in prev.items():
+                        if p.startswith(pre) and e[0] == "file":
+                            m = p[len(pre):]
+                            if (root + "/" + m) not in prev and (root + "/" + m) not in cur:
+                                vdir = "/k/store/%s/" % (root + "/" + m)[len("/w/"):]
+                                dropped[(name, m)] = sorted(q for q in cur if q.startswith(vdir))
+        between = []
+        prev = cur
+    return None
+
+
+wk.MONITORS["deleted_absent"] = mon_deleted_absent
+
+
 def known(meta, msg):
     import vlib
     for k in vlib.known_findings().get("open", []):
@@ -130,12 +249,15 @@ def main(rep):
     for i in range(4):
         t, m = gen_same_name_case(rng)
         cases.append(("t%d" % i, t, m))
-    wk.standard_main(rep, cases=cases, monitors=["twin"] + MON + ["nested"], known=known,
+    for i in range(max(8, n // 25)):
+        t, m = gen_vanish_case(rng)
+        cases.append(("v%d" % i, t, m))
+    wk.standard_main(rep, cases=cases, monitors=["twin"] + MON + ["nested", "deleted_absent"], known=known,
                      rule=("a configured project root and two children of a project parent, files at depth 1-4, a loose file in the parent and a non-project "
                            "file, writes, deletions, passes, restarts, both traversal orders of the tree walk; the monitor checks every new snapshot directory: "
                            "each entry is the same inode as the latest version of that member, every versioned member that still exists is present, deleted "
-                           "ones are absent, earlier snapshots untouched; plus a project parent nested inside a project root: each child in which a file was versioned gets a snapshot of its own; plus two projects whose roots end in the same component (open finding K6)"))
+                           "ones are absent, earlier snapshots untouched; plus a project parent nested inside a project root: each child in which a file was versioned gets a snapshot of its own; plus two projects whose roots end in the same component (open finding K6); plus a project whose whole directory disappears with a snapshot pending and is later put back by something that is not versioned: files found deleted then, and not versioned since, are in no later snapshot"))
 
 
 def replay(rep, path):
-    return wk.replay_world(rep, path, ["twin"] + MON + ["nested"])
+    return wk.replay_world(rep, path, ["twin"] + MON + ["nested", "deleted_absent"])
